@@ -431,7 +431,10 @@ def ret_cases(fn):
 
     def expand(val, anchor, depth=0):
         ins = fn.get(val) if isinstance(val, str) else None
-        if ins is not None and ins.op == 'phi' and depth < 8:
+        if ins is not None and ins.op == 'phi' and len(ins.d['incoming']) == 1 and depth < 12:
+            expand(ins.d['incoming'][0][0], anchor, depth + 1)  # lcssa / single-predecessor phi: same point
+        elif ins is not None and ins.op == 'phi' and depth < 8 and \
+                not any(l['header'] == ins.block.id for l in fn.loops):
             for v, b in ins.d['incoming']:
                 expand(v, EdgePoint(fn, b, ins.block.id), depth + 1)
         elif ins is not None and ins.op in ('zext', 'sext', 'trunc') and depth < 8:
